@@ -247,7 +247,7 @@ fn same(a: &Value, b: &Value, exact: bool) -> bool {
 	match (a, b) {
 		(Value::Number(x), Value::Number(y)) => {
 			if exact { x == y } else {
-				x.as_str() == y.as_str() || (x.as_str().parse::<f64>().ok() == y.as_str().parse::<f64>().ok() && x.as_str().parse::<f64>().is_ok())
+				x.as_str() == y.as_str() || (x.as_str().parse::<f64>().ok().map(f64::to_bits) == y.as_str().parse::<f64>().ok().map(f64::to_bits) && x.as_str().parse::<f64>().is_ok())
 			}
 		}
 		(Value::Array(x), Value::Array(y)) => x.len() == y.len() && x.iter().zip(y.iter()).all(|(p, q)| same(p, q, exact)),
